@@ -1177,7 +1177,7 @@ def witnesses_c16(tier, seed):
 
 
 PROPS['C16'] = dict(
-    level_text='Proof, for every function under contract (18 units; see DESIGN.md section 11), with no precondition on user-controlled values: Verus '
+    level_text='Proof, for every function under contract (19 units; see DESIGN.md section 11), with no precondition on user-controlled values: Verus '
                'discharges every index, overflow, shift-amount, division, unwrap obligation and a decreases clause for every loop and recursion '
                '(Expr evaluation with its nesting budget, skip, parse_iter, pass 1/2 loops, the HEX writer); Kani checks the same panics in '
                'each of its harnesses; pass 1 stops at the device capacity so that pass 2 allocates at most the fragment lengths it proves. '
